@@ -223,6 +223,12 @@ func (o *Obligation) print(asserts []*Term) (full, ground string) {
 // function's branch conditions when the merged-state query is large.
 func (o *Obligation) prepare(forceSplit int) {
 	base := o.baseAsserts()
+	if os.Getenv("GOVC_DEBUG_OBL") != "" && strings.Contains(o.Name, os.Getenv("GOVC_DEBUG_OBL")) {
+		fmt.Fprintf(os.Stderr, "OBL %s\n guard: %.600s\n goal: %.600s\n", o.Name, o.Guard, o.Goal)
+		for _, a := range o.exec.branchAtoms {
+			fmt.Fprintf(os.Stderr, " atom: %.300s\n", a)
+		}
+	}
 	raw, _ := o.print(base)
 	if (len(raw) <= 15000 && forceSplit == 0) || o.exec == nil {
 		o.Script, o.ScriptG = o.print(instantiateFacts(base, 1500))
@@ -296,6 +302,12 @@ func (o *Obligation) prepare(forceSplit int) {
 			continue
 		}
 		as = append(as, lits...)
+		if os.Getenv("GOVC_DEBUG_OBL") != "" && strings.Contains(o.Name, os.Getenv("GOVC_DEBUG_OBL")) {
+			fmt.Fprintf(os.Stderr, "CASE %d\n", mask)
+			for i, a := range base {
+				fmt.Fprintf(os.Stderr, "  base[%d]: %.200s\n     -> %.200s\n", i, a, Subst(a, m))
+			}
+		}
 		as = instantiateFacts(as, 1500)
 		f, g := o.print(as)
 		o.Scripts = append(o.Scripts, f)
@@ -364,7 +376,10 @@ func (o *Obligation) solve(tier string, idx int) {
 	if tier == "thorough" {
 		quick, slow = 10, 120
 	}
-	if o.ScriptG != "" {
+	if o.Cover {
+		slow = 4
+	}
+	if o.ScriptG != "" && !o.Cover {
 		// ground-only pass first: decidable fragment, usually instantaneous
 		file := filepath.Join(workDir, fmt.Sprintf("q%05d_g.smt2", idx))
 		os.WriteFile(file, []byte(o.ScriptG), 0644)
